@@ -69,8 +69,8 @@ CHECKS = {
         design_ref='6/C18',
         note='window limits are on the half-sample grid; at sampling rates that are not powers of two they are given half a sample off the grid or exactly ON sample times, and in the latter case windows with fs*(s/fs) != s carry their own class (one open known finding, F15b: limit_df compares samples with the product fs*limit); flatten_dfs results must not change through later calls on the same tables.'),
     'C14': dict(
-        technique=TECH + 'model checking of the Session state machine (heap of aliased option dictionaries, objects, histories) incl. a negative control, TLC-generated behaviours replayed on real Bycycle objects, and TLC trace validation (Trace_Session) binding every recorded event to the Session action; group models via Trace_Pool',
-        text='Session.tla: HeapIsIntent, NoStale and OnlyEditsWrite hold for all histories to the depth bound and the pinned tree\'s write-back deviation violates them. Behaviours simulated by TLC from the same specification are replayed on real objects sharing real dictionaries; TLC compares after every action the recorded dictionary contents with the specified heap, the fitted table with the functional analysis for the settings as the user wrote them, recompute_edges(r) with the functional recomputation, attribute access and load; BycycleGroup.models are checked position by position for 2-D / 3-D arrays and every axis mode.',
+        technique=TECH + 'model checking of the Session state machine (heap of aliased option dictionaries, objects, histories) incl. negative controls, TLC-generated behaviours replayed on real Bycycle objects, and TLC trace validation (Trace_Session) binding every recorded event to the Session action; group models via Trace_Pool; group histories by model checking GroupSession.tla, replay on a real BycycleGroup and trace validation (Trace_GroupSession)',
+        text='Session.tla: HeapIsIntent, NoStale and OnlyEditsWrite hold for all histories to the depth bound and the pinned tree\'s write-back deviation violates them. Behaviours simulated by TLC from the same specification are replayed on real objects sharing real dictionaries; TLC compares after every action the recorded dictionary contents with the specified heap, the fitted table with the functional analysis for the settings as the user wrote them, recompute_edges(r) with the functional recomputation, attribute access and load; BycycleGroup.models are checked position by position for 2-D / 3-D arrays and every axis mode. GroupSession.tla models one BycycleGroup with re-bound / edited threshold dictionaries, fits of three stacks in every axis mode and edge recomputations (invariants Mirror, UsesCurrentSettings, HeapIsIntent; the former behaviours D22 / D17 as negative controls); TLC-simulated group sessions are replayed on a real BycycleGroup and judged by Trace_GroupSession (the reference settings must be those of the specification).',
         design_ref='6/C14',
         note='analyses are abstracted to effective-parameter vectors in the model; in the replay equality of analyses is equality of table fingerprints over float limbs; option domain: six dictionaries (two per method, burst options, extrema options), min_n_cycles absent/2/3, two threshold levels, both methods and centrings, re-binding, two signals, shorthand threshold names, default vs explicit extrema options.'),
     'C15': dict(
